@@ -10,6 +10,31 @@ class CklSyntaxError(Exception):
             return f"SYNTAX-ERROR: {self.msg}"
 
 
+import re
+
+
+# host-language exceptions that evaluating a program can provoke (wrong
+# argument kinds, indices, conversions, recursion depth, bad patterns ...)
+HOST_ERRORS = (
+    ArithmeticError,
+    LookupError,
+    TypeError,
+    ValueError,
+    AttributeError,
+    RecursionError,
+    re.error,
+)
+
+
+def as_runtime_error(e, pos=None):
+    """Wraps a host-language exception into the language's runtime error,
+    so that programs can catch it and hosts can report it."""
+    from ckl.values import ValueString
+    return CklRuntimeError(
+        ValueString("ERROR"), f"{type(e).__name__}: {e}", pos
+    )
+
+
 class CklRuntimeError(Exception):
     def __init__(self, value, msg, pos=None):
         self.value = value
